@@ -19,10 +19,10 @@ import connhist  # noqa: E402
 import connrun  # noqa: E402
 import connspec  # noqa: E402
 
-# W5b-defect-1 (a reconnect attempt that succeeds inside shutdown()'s clean-up survives close()) is a genuine defect of the
-# pinned tree that is not repaired yet: "report" records it in the notes; set to "strict" once /repo carries the repair
-# (reports/W5b-defect-1.diff or an equivalent) - the section then demands a clean close() at every loop iteration.
-LATE_OPEN_DEFAULT = "report"
+# D30 (a reconnect attempt that succeeds inside shutdown()'s clean-up survived close(): residual of D25) was a genuine defect of
+# the pinned tree, repaired by /repo aaad885: the late-open section demands a clean close() at every loop iteration
+# (VERIF_C12_LATE_OPEN=report only records what it sees).
+LATE_OPEN_DEFAULT = "strict"
 
 ENVS = {
     # controller keeps sending: a frame every ~1 s / every ~9 s (just inside READER_TIMEOUT)
